@@ -81,7 +81,7 @@ def bounded(rep, tier):
     import os
     repo = os.environ.get("MAKO_REPO", "/repo")
     t0 = time.time()
-    seeds = (0, 1) if tier == "quick" else (0, 1, 2, 3, 12345)
+    seeds = (0, 1) if tier == "quick" else (0, 1, 2, 3, 4, 5, 6, 7, 42, 12345, 99991)
     jobs = [(n, s, repo) for n in G.TEMPLATES for s in seeds]
     rs = pool_map(G.run_one, jobs)
     bad = G.compare(rs)
